@@ -222,6 +222,22 @@ def ops_unary(ir, fr, xc):
                     x.fill_missing(method, *args)
                     return x
                 out.append((f"fill_missing({method}) {form}", impl, (lambda method=method: fill_oracle(method)), True))
+    # --- the number of periods may be any integer type (numpy integers come out of every index computation)
+    for k, form in ((np.int64(-1), "method"), (np.int32(2), "function"), (np.int64(-2), "diff")):
+        def impl(k=k, form=form):
+            x = X()
+            if form == "method":
+                x.shift(k)
+                return x
+            if form == "function":
+                return ir.shift(x, k)
+            return ir.diff(x, k)
+        def orc(k=k, form=form):
+            kk = int(k)
+            if form == "diff":
+                return {(s, v): t - x_cells[(s + kk, v)] for (s, v), t in x_cells.items() if (s + kk, v) in x_cells}
+            return {(s - kk, v): t for (s, v), t in x_cells.items()}
+        out.append((f"shift(numpy {type(k).__name__} {int(k)}) {form}", impl, orc, True))
     # --- scalar arithmetic and unary
     for name, f in (("x+2", lambda x: x + 2), ("3-x", lambda x: 3 - x), ("x*c", lambda x: x * S.sym("c0", 2)), ("2/x", lambda x: 2 / x), ("-x", lambda x: -x), ("x**2", lambda x: x ** 2)):
         def impl(f=f):
